@@ -110,6 +110,20 @@ def whole_bodies(repo):
     out['send_trailers'] = fingerprint(body)
     body, _ = co.fn_body('split')
     out['split'] = fingerprint(body)
+    blk, _, _ = cc.item_block(r'impl<[^>]*>\s*Clone\s+for\s+SendRequest')
+    out['Clone for SendRequest'] = fingerprint(blk)
+    body, _ = cc.fn_body('send_request')
+    i = body.find('let request_stream = RequestStream')
+    out['send_request (new stream)'] = fingerprint(body[i:])
+    blk, _, _ = co.item_block(r'impl<S,\s*B>\s*RequestStream<S,\s*B>\s*\{\s*#\[allow\(missing_docs\)\]\s*pub\s+fn\s+new')
+    out['RequestStream::new impl'] = fingerprint(blk)
+    sc = Source(repo + '/h3/src/server/connection.rs')
+    body, _ = sc.fn_body('create_resolver_internal')
+    out['create_resolver_internal'] = fingerprint(body)
+    sr0 = Source(repo + '/h3/src/server/request.rs')
+    body, _ = sr0.fn_body('accept_with_frame')
+    i = body.find('let request_stream = RequestStream')
+    out['accept_with_frame (new stream)'] = fingerprint(body[i:])
     sr = Source(repo + '/h3/src/server/request.rs')
     body, _ = sr.fn_body('resolve')
     i = body.find('Header::try_from(fields)')
@@ -152,6 +166,16 @@ def src_kind(expr, what):
     raise AnchorLost(what + ': where the limit comes from: ' + e)
 
 
+def cell_kind(expr, what):
+    """which settings cell a handle holds: the connection's (an Arc clone / move of the holder's) or a fresh one"""
+    e = re.sub(r'\s+', '', expr)
+    if e in ('self.conn_state.clone()', 'self.conn_state', 'self.shared.clone()', 'self.inner.shared.clone()', 'conn_state', 'self.shared'):
+        return 'SharedCell'
+    if 'default()' in e or '::new(' in e:
+        return 'FreshCell'
+    raise AnchorLost(what + ': which state cell: ' + e)
+
+
 def mentions(src):
     """all lines of a file that mention the field, whitespace-normalised (comments are already stripped)"""
     return [re.sub(r'\s+', ' ', l).strip() for l in src.text.splitlines() if 'max_field_section_size' in l]
@@ -181,6 +205,14 @@ def flow(repo, f, spans):
     if not m:
         raise AnchorLost('Clone for SendRequest')
     f['flow_clone'] = src_kind(m.group(1), 'Clone for SendRequest')
+    m = re.search(r'conn_state\s*:\s*([^,]+),', blk)
+    if not m:
+        raise AnchorLost('Clone for SendRequest: conn_state')
+    f['state_clone'] = cell_kind(m.group(1), 'Clone for SendRequest')
+    m = re.search(r'connection::RequestStream::new\(\s*[^,]+(?:\([^)]*\))*[^,]*,\s*[^,]+,\s*([^,]+),', body)
+    if not m:
+        raise AnchorLost('send_request: RequestStream::new state argument')
+    f['state_client_stream'] = cell_kind(m.group(1), 'send_request -> RequestStream::new')
     if len(mentions(cc)) != 6:
         raise AnchorLost('client/connection.rs: limit mentions %r' % mentions(cc))
     # server: Connection -> RequestResolver -> RequestStream::new / ResolvedRequest::new
@@ -189,12 +221,21 @@ def flow(repo, f, spans):
     if ms != ['pub(super) max_field_section_size: u64,', 'max_field_section_size: self.max_field_section_size,']:
         raise AnchorLost('server/connection.rs: limit flow %r' % ms)
     f['flow_server_resolver'] = 'SrcOwn'
+    body, spans['flow_create_resolver'] = sc.fn_body('create_resolver_internal')
+    m = re.search(r'shared\s*:\s*([^,]+),', body)
+    if not m:
+        raise AnchorLost('create_resolver_internal: shared')
+    f['state_resolver'] = cell_kind(m.group(1), 'create_resolver_internal')
     sr = Source(repo + '/h3/src/server/request.rs')
     body, spans['flow_accept_with_frame'] = sr.fn_body('accept_with_frame')
     m = re.search(r'connection::RequestStream::new\(\s*self\.frame_stream\s*,\s*([^,]+),', body)
     if not m:
         raise AnchorLost('accept_with_frame: RequestStream::new')
     f['flow_server_stream'] = src_kind(m.group(1), 'accept_with_frame -> RequestStream::new')
+    m = re.search(r'connection::RequestStream::new\(\s*self\.frame_stream\s*,\s*[^,]+,\s*([^,]+),', body)
+    if not m:
+        raise AnchorLost('accept_with_frame: RequestStream::new state argument')
+    f['state_server_stream'] = cell_kind(m.group(1), 'accept_with_frame -> RequestStream::new')
     if len(mentions(sr)) != 8:
         raise AnchorLost('server/request.rs: limit mentions %r' % mentions(sr))
     # connection.rs: RequestStream::new stores its argument; split() gives the receive half the limit
@@ -210,6 +251,13 @@ def flow(repo, f, spans):
     if set(got) != {'send', 'recv'}:
         raise AnchorLost('split: halves %r' % sorted(got))
     f['flow_split_recv'], f['flow_split_send'] = got['recv'], got['send']
+    cells = {}
+    for which, rest in halves:
+        m = re.search(r'conn_state\s*:\s*([^,]+),', rest)
+        if not m:
+            raise AnchorLost('split: half without the state cell')
+        cells[which] = cell_kind(m.group(1), 'split() ' + which + ' half')
+    f['state_split_send'], f['state_split_recv'] = cells['send'], cells['recv']
     ms = [l for l in mentions(co)]
     if len(ms) != 8 or 'max_field_section_size,' not in ms:
         raise AnchorLost('connection.rs: limit mentions %r' % ms)
@@ -329,6 +377,10 @@ def render(f):
     for k in ('flow_builder_client', 'flow_builder_server', 'flow_clone', 'flow_client_stream', 'flow_server_resolver',
               'flow_server_stream', 'flow_split_recv', 'flow_split_send'):
         L.append('Definition lim_%s : lim_src := %s.' % (k, f[k]))
+    L += ['(* which settings cell each handle holds: the connection\'s one (an Arc clone) or a fresh one *)',
+          'Inductive lim_cell := SharedCell | FreshCell.']
+    for k in ('state_clone', 'state_client_stream', 'state_resolver', 'state_server_stream', 'state_split_send', 'state_split_recv'):
+        L.append('Definition lim_%s : lim_cell := %s.' % (k, f[k]))
     L.append('(* any other DecoderError at a receive site: handle_connection_error_on_stream with this code *)')
     for k in ('recv_request_decomp_code', 'recv_response_decomp_code', 'recv_trailers_decomp_code'):
         L.append('Definition lim_%s : N := %s.' % (k, f[k]))
